@@ -80,10 +80,15 @@ structure Params where
       connection, `newGRPCClient`/`dialGRPCConn` use transport credentials with `WithInsecure` only for
       a nil config, the host's gRPC broker gets the same config and uses it for its dials) -/
   dialsUseTlsConfig : Bool
+  /-- `Start` compares `c.protocol` with `AllowedProtocols` after the `if len(parts) >= 5` block, in the
+      statement list where the net/rpc default is assigned — so the check also covers the protocol that
+      was DEFAULTED for a four-field (legacy) line, not only a protocol read from the line -/
+  allowedCheckCoversDefault : Bool
   deriving DecidableEq, Repr
 
 def Params.Good (P : Params) : Prop :=
-  P.defaultAllowedNetrpcOnly = true ∧ P.reattachMuxRefused = true ∧ P.autoTlsAtStart = true ∧ P.dialsUseTlsConfig = true
+  P.defaultAllowedNetrpcOnly = true ∧ P.reattachMuxRefused = true ∧ P.autoTlsAtStart = true ∧ P.dialsUseTlsConfig = true ∧
+  P.allowedCheckCoversDefault = true
 
 instance (P : Params) : Decidable P.Good := by unfold Params.Good; exact inferInstance
 
@@ -135,28 +140,45 @@ def lineOf (hc : HostC) (pc : PlugC) : Bytes :=
     (if plugTls hc pc = .auto then someCert else [])
     (if hc.mux ∧ pc.advMux then Serve.sTrue else [])
 
+/-- the line of a plugin built before the protocol field existed: `CORE|APP|NETWORK|ADDR` (it serves
+net/rpc; it knows neither AutoMTLS nor multiplexing) -/
+def legacyLine : Bytes := Go.join Handshake.bar [Go.itoa 1, Go.itoa 3, Handshake.sUnix, someAddr]
+
+/-- what such a plugin is, in terms of the plugin configuration: net/rpc, no multiplexing, no AutoMTLS -/
+def legacyPlug (s : PSec) : PlugC := ⟨false, s, false, true⟩
+
 def extOk : Handshake.Ext :=
   ⟨fun n a => some (n, a), fun a => some ⟨Handshake.sTcp, a⟩, fun a => some ⟨Handshake.sUnix, a⟩, fun _ => true⟩
 
-def hostCfgOf (I : Params) (hc : HostC) : Handshake.HostCfg := ⟨[3], allowedList I hc.allowed, hostTls hc ≠ .none, hc.mux⟩
+/-- `legacy` = the line has four fields.  `Handshake.start` checks the (possibly defaulted) protocol
+unconditionally; code that checks it only inside `if len(parts) >= 5` behaves, on a four-field line,
+exactly as if the default (net/rpc) were in the list. -/
+def hostCfgOf (I : Params) (hc : HostC) (legacy : Bool) : Handshake.HostCfg :=
+  ⟨[3], (if legacy && !I.allowedCheckCoversDefault then Handshake.sNetrpc :: allowedList I hc.allowed else allowedList I hc.allowed),
+   hostTls hc ≠ .none, hc.mux⟩
 
 def classify : Handshake.ErrKind → StartErr
   | .protocol => .protocol
   | .muxUnsupported => .mux
   | _ => .other
 
-/-- the composition -/
-def compose (I : Params) (P : Handshake.Params) (hc : HostC) (pc : PlugC) : Verdict :=
+/-- the composition, for a plugin `pc` that prints either its `Serve` line or the legacy line -/
+def composeLine (I : Params) (P : Handshake.Params) (hc : HostC) (pc : PlugC) (legacy : Bool) : Verdict :=
   if hc.launch = .reattach ∧ hc.mux ∧ I.reattachMuxRefused then .startErr .optionConflict   -- refused before anything is launched
   else if hc.launch = .reattach then
     -- no handshake line: address and protocol come from the ReattachConfig
     connect I hc pc
   else
-    match Handshake.start P (hostCfgOf I hc) extOk (.line (lineOf hc pc)) with
+    match Handshake.start P (hostCfgOf I hc legacy) extOk (.line (if legacy then legacyLine else lineOf hc pc)) with
     | .ok _ _ _ => connect I hc pc
     | .err k _ => .startErr (classify k)
     | .okNoAddr => .broken
     | .panic _ => .broken
+
+def compose (I : Params) (P : Handshake.Params) (hc : HostC) (pc : PlugC) : Verdict := composeLine I P hc pc false
+
+/-- a legacy plugin (four-field line) with the given static-TLS setting -/
+def composeLegacy (I : Params) (P : Handshake.Params) (hc : HostC) (s : PSec) : Verdict := composeLine I P hc (legacyPlug s) true
 
 /-! ### the specification table, written without reference to the composition -/
 
